@@ -103,7 +103,6 @@ class Multiplication:
     m = re.search(r'(.*)\*(\d+)',segment_name)
     if m:
       segment_name = m.groups()[0]
-      i = int(m.groups()[1])
     offset = 0
     for i in range(first,factor+first-1):
       name = "{}*{}".format(segment_name, i+offset)
